@@ -224,6 +224,9 @@ _vbi_event_handler_list_add	(_vbi_event_handler_list *el,
 			} else {
 				found = eh;
 				eh->event_mask = event_mask;
+				/* Re-registered while a delivery is in
+				   progress: keep the record. */
+				eh->remove = FALSE;
 			}
 		}
 
